@@ -186,8 +186,12 @@ def stranding_streams(tier, rng):
             n = rng.choice([6, 10, 16]) * M * S
             keys = rng.sample(range(1, 100000), n)
             lines = [cfg.line(), "m new 0 %d" % rng.choice([1, 4, 16]), "m setmlf 0 %d" % k2.dbits(0.0)]
-            for k in keys:
+            for i_, k in enumerate(keys):
                 lines.append("m insert 0 %d %d" % (k, k % 997))
+                if i_ % 7 == 6 and cfg.kind != 2:
+                    # a copy taken while stripes of the last doubling are still pending must reach every key from its hash too
+                    # (the per-stripe migration state travels with the copy)
+                    lines += ["m copy 1 0", "m inv 1"] + ["m find 1 %d" % q for q in keys[:i_ + 1][-24:]] + ["m stats 1"]
             for req in ("m rehash 0 %d" % rng.choice([0, 1, 2]), "m reserve 0 %d" % rng.choice([1, 2, S + 1]), "m rehash 0 0"):
                 lines += [req, "m stats 0", "m inv 0"]
                 lines += ["m find 0 %d" % k for k in keys]
@@ -241,7 +245,7 @@ def run(tier):
                 res.add_failing(f)
     placement_phase(res, tier, rng)
     import k2check
-    k2check.streams_phase("C13", "stranding", stranding_streams, also=("C02", "C05"),
+    k2check.streams_phase("C13", "stranding", stranding_streams, also=("C02", "C05", "C11"),
                           what="a key is unreachable from its hash / miscounted after an explicit resize whose rebuild doubled with deferred migration")(res, tier)
     res.assumptions = ["shifts by >= 64 are undefined in C++ and excluded (theorems assume hp < 64; doubling facts hp+1 < 64)",
                        "reserve_calc theorem tied to the generated code for SLOT_PER_BUCKET=4; other S via K1 against the spec"]
